@@ -152,4 +152,223 @@ theorem parse_tree_refines (U ty : Int) (f : Nat) (w : SwcText.Str) (t' : List T
         intro n4 new2 h4
         exact Built.tree encF (treeRec w) hρ rfl hlab rfl g4 a3 a2 h4
 
+abbrev TV := parser_parse.V
+/-- the `while` loop of `_parse` -/
+abbrev TW (G n : Nat) (v : TV) : Res TV Int := whileF parser_parse.while1_cond (parser_parse.while1_body G) n v
+
+theorem W_next (G n : Nat) (v v' : TV) (h : parser_parse.while1_body G v = .next v') : TW G (n + 1) v = TW G n v' := by
+  simp only [TW, whileF, parser_parse.while1_cond, h]
+theorem W_cont (G n : Nat) (v v' : TV) (h : parser_parse.while1_body G v = .cont v') : TW G (n + 1) v = TW G n v' := by
+  simp only [TW, whileF, parser_parse.while1_cond, h]
+theorem W_brk (G n : Nat) (v v' : TV) (h : parser_parse.while1_body G v = .brk v') : TW G (n + 1) v = .next v' := by
+  simp only [TW, whileF, parser_parse.while1_cond, h]
+theorem W_err (G n : Nat) (v : TV) (h : parser_parse.while1_body G v = .err) : TW G (n + 1) v = .err := by
+  simp only [TW, whileF, parser_parse.while1_cond, h]
+
+theorem top_nil (G : Nat) (v : TV) (nodes : List ASTNode) (hs : v.self = st encF [] nodes) :
+    parser_parse.while1_body G v = .brk { v with token := none } := by
+  simp [parser_parse.while1_body, Py.seq, hs]
+
+theorem top_comment (G : Nat) (v : TV) (c : SwcText.Str) (t : List Tok) (nodes : List ASTNode) (hs : v.self = st encF (.comment c :: t) nodes) :
+    parser_parse.while1_body G v = .cont { v with token := some (enc encF (.comment c)), self := st encF t nodes } := by
+  simp [parser_parse.while1_body, Py.seq, Py.bind, Py.skip, hs, enc, read_token_st]
+
+theorem top_rp (G : Nat) (v : TV) (t : List Tok) (nodes : List ASTNode) (hs : v.self = st encF (.rp :: t) nodes) :
+    parser_parse.while1_body G v = .brk { v with token := some (enc encF .rp) } := by
+  simp [parser_parse.while1_body, Py.seq, Py.bind, Py.skip, hs, enc]
+
+theorem top_other (G : Nat) (v : TV) (x : Tok) (t : List Tok) (nodes : List ASTNode) (hs : v.self = st encF (x :: t) nodes)
+    (h1 : x ≠ .lp) (h2 : x ≠ .rp) (h3 : ∀ c, x ≠ .comment c) : parser_parse.while1_body G v = .err := by
+  cases x <;> simp_all [parser_parse.while1_body, Py.seq, Py.bind, Py.skip, enc]
+
+theorem top_lp_nil (G : Nat) (v : TV) (nodes : List ASTNode) (hs : v.self = st encF [.lp] nodes) :
+    parser_parse.while1_body G v = .err := by
+  simp [parser_parse.while1_body, Py.seq, Py.bind, Py.skip, hs, enc, consume_st, assert_eq]
+
+theorem top_lp_other (G : Nat) (v : TV) (x : Tok) (t : List Tok) (nodes : List ASTNode) (hs : v.self = st encF (.lp :: x :: t) nodes)
+    (h : ∀ w, x ≠ .literal w) : parser_parse.while1_body G v = .err := by
+  cases x <;> simp_all [parser_parse.while1_body, Py.seq, Py.bind, Py.skip, enc, consume_st, assert_eq]
+
+theorem top_lp_tree (G : Nat) (v : TV) (w : SwcText.Str) (t : List Tok) (nodes : List ASTNode)
+    (hs : v.self = st encF (.lp :: .literal w :: t) nodes) (hw : upper w = "AXON".toList ∨ upper w = "DENDRITE".toList) :
+    parser_parse.while1_body G v = match parser_parse_tree G (st encF (.literal w :: t) nodes) v.root with
+      | none => .err
+      | some r => .next { v with token := some (enc encF (.literal w)), self := r.1 } := by
+  have hcond : (decide (Py.strUpper (String.ofList w) = "AXON") || decide (Py.strUpper (String.ofList w) = "DENDRITE")) = true := by
+    rw [upper_decide, upper_decide]
+    rcases hw with h | h <;> simp [h]
+  cases h : parser_parse_tree G (st encF (.literal w :: t) nodes) v.root <;>
+    simp [parser_parse.while1_body, Py.seq, Py.bind, Py.skip, hs, enc, consume_st, assert_eq, Py.Atom.str?, hcond, h]
+
+theorem top_lp_color (G : Nat) (v : TV) (w : SwcText.Str) (t : List Tok) (nodes : List ASTNode)
+    (hs : v.self = st encF (.lp :: .literal w :: t) nodes) (hw : upper w = "COLOR".toList) :
+    parser_parse.while1_body G v = match parser_parse_color (st encF (.literal w :: t) nodes) v.root with
+      | none => .err
+      | some r => .next { v with token := some (enc encF (.literal w)), self := r.1 } := by
+  have hw' : upper w = ['C', 'O', 'L', 'O', 'R'] := hw
+  cases h : parser_parse_color (st encF (.literal w :: t) nodes) v.root <;>
+    simp [parser_parse.while1_body, Py.seq, Py.bind, Py.skip, hs, enc, consume_st, assert_eq, Py.Atom.str?, upper_decide, hw', h]
+
+theorem top_lp_lit_other (G : Nat) (v : TV) (w : SwcText.Str) (t : List Tok) (nodes : List ASTNode)
+    (hs : v.self = st encF (.lp :: .literal w :: t) nodes) (h1 : upper w ≠ "AXON".toList) (h2 : upper w ≠ "DENDRITE".toList)
+    (h3 : upper w ≠ "COLOR".toList) : parser_parse.while1_body G v = .err := by
+  have h1' : ¬ upper w = ['A', 'X', 'O', 'N'] := h1
+  have h2' : ¬ upper w = ['D', 'E', 'N', 'D', 'R', 'I', 'T', 'E'] := h2
+  have h3' : ¬ upper w = ['C', 'O', 'L', 'O', 'R'] := h3
+  simp [parser_parse.while1_body, Py.seq, Py.bind, Py.skip, hs, enc, consume_st, assert_eq, Py.Atom.str?, upper_decide, h1', h2', h3']
+
+/-! ### the simulation of the `_parse` loop against `Asc.parseTop` -/
+
+def U : Int := Gen.Consts.type_undefined
+
+def TopPost (encF : SwcText.Sci → Int) (rows : List Asc.Row) (nodes : List ASTNode) (ρ : Nat) (out : Res TV Int) :
+    Except Err (List Tok × List Asc.Row) → Prop
+  | .error _ => out = .err
+  | .ok (t', rows') => ∃ v' nodes' new, out = .next v' ∧ v'.self = st encF t' nodes' ∧ v'.root = (ρ : Int) ∧ rows' = rows ++ new ∧ NoBad t' ∧
+      Built encF U nodes nodes' ρ ρ (-1) (-1) rows.length new
+
+def TopSpec (encF : SwcText.Sci → Int) (f : Nat) : Prop :=
+  ∀ (toks : List Tok) (rows : List Asc.Row), NoBad toks → parseTop f toks rows ≠ .error .fuel →
+    ∀ (G n : Nat) (v : TV) (nodes : List ASTNode) (ρ : Nat), f ≤ n → 2 * f ≤ G → v.self = st encF toks nodes → v.root = (ρ : Int) →
+      ρ < nodes.length → TopPost encF rows nodes ρ (TW G n v) (parseTop f toks rows)
+
+theorem TopPost.cont {rows new1 : List Asc.Row} {nodes n3 : List ASTNode} {ρ : Nat} {out : Res TV Int}
+    {res : Except Err (List Tok × List Asc.Row)}
+    (cap : ∀ n4 new2, Built encF U n3 n4 ρ ρ (-1) (-1) (rows.length + new1.length) new2 →
+      Built encF U nodes n4 ρ ρ (-1) (-1) rows.length (new1 ++ new2))
+    (h : TopPost encF (rows ++ new1) n3 ρ out res) : TopPost encF rows nodes ρ out res := by
+  cases res with
+  | error e => exact h
+  | ok r =>
+    obtain ⟨v', nodes', new, g1, g2, g3, g4, g5, g6⟩ := h
+    refine ⟨v', nodes', new1 ++ new, g1, g2, g3, by rw [g4]; simp, g5, cap _ _ ?_⟩
+    simpa using g6
+
+theorem parseTop_lp_other (f : Nat) (x : Tok) (t' : List Tok) (rows : List Asc.Row) (hnb : NoBad (.lp :: x :: t'))
+    (h : ∀ w, x ≠ .literal w) : parseTop (f + 1) (.lp :: x :: t') rows = .error .tokenType := by
+  cases x with
+  | literal w => exact absurd rfl (h w)
+  | _ => simp only [parseTop, adv_noBad _ _ hnb, ok_bind]
+
+theorem parseTop_other (f : Nat) (x : Tok) (t' : List Tok) (rows : List Asc.Row)
+    (h1 : x ≠ .lp) (h2 : x ≠ .rp) (h3 : ∀ c, x ≠ .comment c) : parseTop (f + 1) (x :: t') rows = .error .tokenType := by
+  cases x with
+  | lp => exact absurd rfl h1
+  | rp => exact absurd rfl h2
+  | comment c => exact absurd rfl (h3 c)
+  | _ => simp only [parseTop]
+
+theorem top_step {f : Nat} (hP : TopSpec encF f) : TopSpec encF (f + 1) := by
+  intro toks rows hnb hne G n v nodes ρ hn hG hs hr hρ
+  obtain ⟨n', rfl⟩ : ∃ n', n = n' + 1 := ⟨n - 1, by omega⟩
+  cases toks with
+  | nil =>
+    have e : parseTop (f + 1) [] rows = .ok ([], rows) := by simp only [parseTop]
+    rw [e, W_brk _ _ _ _ (top_nil G v nodes hs)]
+    exact ⟨_, nodes, [], rfl, hs, hr, by simp, hnb, Built.nil encF U nodes ρ ρ _ _ _⟩
+  | cons tk t =>
+    have hnt := hnb.tail
+    by_cases hlp : tk = .lp
+    · subst hlp
+      cases t with
+      | nil =>
+        have e : parseTop (f + 1) [.lp] rows = .error .eof := by simp only [parseTop, adv, ok_bind]
+        rw [e]
+        exact W_err _ _ _ (top_lp_nil G v nodes hs)
+      | cons x t' =>
+        by_cases hx : ∃ w, x = .literal w
+        · obtain ⟨w, rfl⟩ := hx
+          by_cases hw : upper w = "AXON".toList ∨ upper w = "DENDRITE".toList
+          · have hc : (upper w = "AXON".toList || upper w = "DENDRITE".toList) = true := by
+              rcases hw with h | h <;> simp [h]
+            have e : parseTop (f + 1) (.lp :: .literal w :: t') rows =
+                ((expectRp t' >>= fun t3 => skipComments f t3 >>= fun t4 => expectLp t4 >>= fun t5 =>
+                  parseSubtree (if upper w = "AXON".toList then Gen.Consts.type_axon else Gen.Consts.type_basal_dendrite) f t5 false (-1) (-1) rows)
+                  >>= fun r => parseTop f r.1 r.2) := by
+              simp only [parseTop, adv_noBad _ _ hnb, adv_noBad _ _ hnt, ok_bind, hc, if_true, bind_assoc]
+            rw [e] at hne ⊢
+            have hb := top_lp_tree G v w t' nodes hs hw
+            rw [hr] at hb
+            have hne1 : (expectRp t' >>= fun t3 => skipComments f t3 >>= fun t4 => expectLp t4 >>= fun t5 =>
+                parseSubtree (if upper w = "AXON".toList then Gen.Consts.type_axon else Gen.Consts.type_basal_dendrite) f t5 false (-1) (-1) rows)
+                ≠ .error .fuel := by
+              intro h; rw [h] at hne; exact hne rfl
+            have htree := parse_tree_refines (encF := encF) U _ f w t' rows nodes ρ G hnt (labelCode_tree w hw) (by omega) hρ hne1
+            revert htree hne
+            cases (expectRp t' >>= fun t3 => skipComments f t3 >>= fun t4 => expectLp t4 >>= fun t5 =>
+                parseSubtree (if upper w = "AXON".toList then Gen.Consts.type_axon else Gen.Consts.type_basal_dendrite) f t5 false (-1) (-1) rows) with
+            | error er =>
+              intro hne htree
+              simp only [TreePost] at htree
+              rw [htree] at hb
+              exact W_err _ _ _ hb
+            | ok r =>
+              obtain ⟨tr, rowsr⟩ := r
+              intro hne htree
+              simp only [ok_bind] at hne ⊢
+              obtain ⟨n3, new1, g1, g2, g3, g4, cap⟩ := htree
+              rw [g1] at hb
+              rw [W_next _ _ _ _ hb]
+              subst g2
+              exact TopPost.cont cap (hP tr _ g3 hne G n' _ n3 ρ (by omega) (by omega) rfl rfl (by omega))
+          · have h1 : upper w ≠ "AXON".toList := fun h => hw (Or.inl h)
+            have h2 : upper w ≠ "DENDRITE".toList := fun h => hw (Or.inr h)
+            have hc : (decide (upper w = "AXON".toList) || decide (upper w = "DENDRITE".toList)) = false := by
+              rw [decide_eq_false h1, decide_eq_false h2]; rfl
+            by_cases h3 : upper w = "COLOR".toList
+            · have e : parseTop (f + 1) (.lp :: .literal w :: t') rows = (parseColor (.literal w :: t') >>= fun t2 => parseTop f t2 rows) := by
+                simp only [parseTop, adv_noBad _ _ hnb, ok_bind]
+                rw [hc]
+                simp only [Bool.false_eq_true, if_false, if_pos h3]
+              rw [e] at hne ⊢
+              have hb := top_lp_color G v w t' nodes hs h3
+              rw [hr, parse_color_refines encF _ _ _ hnt] at hb
+              revert hb hne
+              cases hpc : parseColor (.literal w :: t') with
+              | error er =>
+                intro hne hb
+                exact W_err _ _ _ hb
+              | ok rest =>
+                intro hne hb
+                simp only [ok_bind] at hne ⊢
+                obtain ⟨n1, a1, a2, a3⟩ := attach nodes (colorRec encF (.literal w :: t')) ρ hρ
+                simp only [a1, Option.map_some] at hb
+                rw [W_next _ _ _ _ hb]
+                have cap : ∀ n4 new2, Built encF U n1 n4 ρ ρ (-1) (-1) (rows.length + ([] : List Asc.Row).length) new2 →
+                    Built encF U nodes n4 ρ ρ (-1) (-1) rows.length ([] ++ new2) := by
+                  intro n4 new2 h4
+                  exact Built.leaf encF (colorRec encF (.literal w :: t')) hρ hρ (Or.inl rfl) rfl a3 a2 (by simpa using h4)
+                refine TopPost.cont cap ?_
+                rw [List.append_nil]
+                exact hP rest rows (parseColor_noBad _ hnt _ hpc) hne G n' _ n1 ρ (by omega) (by omega) rfl rfl (by omega)
+            · have e : parseTop (f + 1) (.lp :: .literal w :: t') rows = .error .literal := by
+                simp only [parseTop, adv_noBad _ _ hnb, ok_bind]
+                rw [hc]
+                simp only [Bool.false_eq_true, if_false, if_neg h3]
+              rw [e]
+              exact W_err _ _ _ (top_lp_lit_other G v w t' nodes hs h1 h2 h3)
+        · have hx' : ∀ w, x ≠ .literal w := fun w h => hx ⟨w, h⟩
+          rw [parseTop_lp_other f x t' rows hnb hx']
+          exact W_err _ _ _ (top_lp_other G v x t' nodes hs hx')
+    · by_cases hrp : tk = .rp
+      · subst hrp
+        have e : parseTop (f + 1) (.rp :: t) rows = .ok (.rp :: t, rows) := by simp only [parseTop]
+        rw [e, W_brk _ _ _ _ (top_rp G v t nodes hs)]
+        exact ⟨_, nodes, [], rfl, hs, hr, by simp, hnb, Built.nil encF U nodes ρ ρ _ _ _⟩
+      · by_cases hcm : ∃ c, tk = .comment c
+        · obtain ⟨c, rfl⟩ := hcm
+          have e : parseTop (f + 1) (.comment c :: t) rows = parseTop f t rows := by
+            simp only [parseTop, adv_noBad _ _ hnb, ok_bind]
+          rw [e] at hne ⊢
+          rw [W_cont _ _ _ _ (top_comment G v c t nodes hs)]
+          exact hP t rows hnt hne G n' _ nodes ρ (by omega) (by omega) rfl hr hρ
+        · have hcm' : ∀ c, tk ≠ .comment c := fun c h => hcm ⟨c, h⟩
+          rw [parseTop_other f tk t rows hlp hrp hcm']
+          exact W_err _ _ _ (top_other G v tk t nodes hs hlp hrp hcm')
+
+/-- **the `while` loop of `_parse` as translated does what `Asc.parseTop` does** -/
+theorem top_sim : ∀ f : Nat, TopSpec encF f
+  | 0 => by intro toks rows _ hne; exact absurd rfl hne
+  | f + 1 => top_step (top_sim f)
+
 end RefineAscTop
